@@ -453,13 +453,12 @@ def c04_post(I, outcome, ctx):
     cover(I, 'return')
     done = log(I, 'DONE')
     cancelled = z3.Select(ctx['pre']['cancelled'][0], ev.t)
-    I.oblige('eventDone_called_once_unless_cancelled', z3.BoolVal(len(done) == 1) == z3.Not(cancelled))
-    if done:
+    I.oblige('eventDone_called_once', z3.BoolVal(len(done) == 1))
+    if done and len(done[0]) == 2:
         e, err = done[0]
         I.oblige('eventDone_for_this_event', e.t == ev.t)
         has_err = z3.BoolVal(False) if isinstance(err, VNone) else (z3.Not(err.isnone) if isinstance(err, VOpt) else z3.BoolVal(True))
         I.oblige('err_passed_iff_some_handler_raised', has_err == I.fz(I.field(ev, 'value'), 'errors'))
-        I.oblige('not_handling_anymore', I.fz(ctx['args']['self'], '_currently_handling') == core.null())
 
 
 def c04_extra(I, a):
@@ -637,3 +636,233 @@ SPECS.append(FucSpec(
     clause='_eventDone: nothing happens while a handler waits; otherwise <name>_done iff alert_done, <name>_success iff requested and '
            'no handler raised; then the cause walk: one decrement per finished closure, <name>_complete exactly when a counter reaches '
            'zero and was requested, tracking attributes deleted, ascend to the cause'))
+
+
+# ============================================================================= Manager._fire / fireEvent (C02, C03, C05)
+F_FIELDS = dict(M_FIELDS)
+F_FIELDS.update({'ident': Int, 'channel': Dyn(Any), 'v_event': Ref, 'manager': Ref, 'notify': Any, 'v_parent': Ref, 'handled': Bool, '_value': Any})
+F_ALIAS = dict(ALIAS)
+F_ALIAS.update({('Value', 'event'): 'v_event', ('Value', 'parent'): 'v_parent'})
+
+
+def fire_setup(same_thread):
+    def setup(I):
+        self = obj(I, 'self', 'Manager')
+        event = obj(I, 'event', 'Event')
+        I.st.uses_any = True
+        channel = sym(I, 'channel', Any)
+        prio = sym(I, 'priority', Real)
+        cur = I.field(self, '_currently_handling')
+        I.assume(z3.And(cur.t != event.t, event.t != self.t), 'the event being fired is a new object, not the one being handled')
+        I.assume(tracked_wf(I), 'requires Tracked: cause present iff effects present')
+        cur_thread = z3.Int('CURRENT_THREAD_IDENT')
+        I.st.ghost['CUR_THREAD'] = cur_thread
+        ex, fl = I.field(self, '_executing_thread'), I.field(self, '_flushing_thread')
+        th = z3.If(ex.t != core.null(), ex.t, fl.t)
+        owner = z3.And(th != core.null(), z3.Select(I.st.heap['ident'][0], th) == cur_thread)
+        I.assume(owner if same_thread else z3.Not(owner), 'case: fired from the %s thread' % ('loop' if same_thread else 'a foreign'))
+        I.st.inputs['current_tracked'] = z3.And(cur.t != core.null(), z3.Select(I.st.heap['cause'][0], cur.t))
+        return {'self': self, 'event': event, 'channel': channel, 'priority': prio}
+    return setup
+
+
+def s_queue_append(I, recv, args, kw):
+    """contract of _EventQueue.append (verified under C02): the entry goes to the end of the fifo; nothing is dispatched"""
+    log(I, 'APPENDS').append(args)
+    log(I, 'ORDER').append('append')
+    return NONE
+
+
+def s_reduce(I, recv, args, kw):
+    log(I, 'REDUCE').append((recv, args[0]))
+    log(I, 'ORDER').append('reduce')
+    return NONE
+
+
+FIRE_CALLS = {'_thread.get_ident': lambda I, r, a, k: VInt(I.st.ghost['CUR_THREAD']), 'self._queue.append': s_queue_append,
+              'handling.reduce_time_left': s_reduce}
+
+
+def fire_post(prop, same_thread):
+    def post(I, outcome, ctx):
+        if no_escape(I, outcome):
+            return
+        cover(I, 'return')
+        a, pre = ctx['args'], ctx['pre']
+        self, event = a['self'], a['event']
+        apps = log(I, 'APPENDS')
+        cur0 = z3.Select(pre['_currently_handling'][0], self.t)
+        is_signal = core.fn('isinst_signal', core.RefSort(), z3.BoolSort())(event.t)
+        if prop in ('C02', 'C03'):
+            I.oblige('event_appended_exactly_once', z3.BoolVal(len(apps) == 1), detail='nothing lost or duplicated: one queue entry per fire')
+            if apps:
+                ev, ch, pr = apps[0]
+                I.oblige('appended_entry_is_the_fired_event', z3.And(ev.t == event.t, core.any_inject(ch) == a['channel'].t,
+                                                                     coerce(pr, Real).t == a['priority'].t))
+            # fire never runs a handler: the only calls are the queue append and (foreign thread) the wake-up of the idle wait
+            I.oblige('fire_only_appends', z3.BoolVal(len(log(I, 'INVOKED')) == 0 and len(log(I, 'FIRED')) == 0))
+        if prop == 'C03' and not same_thread:
+            red = log(I, 'REDUCE')
+            isge = core.fn('isinst_generate_events', core.RefSort(), z3.BoolSort())(cur0)
+            I.oblige('idle_wait_woken_iff_generate_events_is_being_handled', z3.BoolVal(len(red) == 1) == z3.And(cur0 != core.null(), isge),
+                     detail='a fire from another thread cuts the time left of the generate_events event being handled to 0')
+            for r, t in red:
+                cover(I, 'woken')
+                I.oblige('time_left_reduced_to_zero', z3.And(r.t == cur0, coerce(t, Real).t == 0))
+            I.oblige('event_queued_before_wakeup', z3.BoolVal(log(I, 'ORDER') in (['append'], ['append', 'reduce'])),
+                     detail='the loop must find the event when it wakes up')
+        if prop == 'C05':
+            c1, e1 = I.field(event, 'cause'), I.field(event, 'effects')
+            tracked = z3.And(cur0 != core.null(), z3.Select(pre['cause'][0], cur0), z3.Select(pre['cause'][1], cur0) != core.null())
+            eff_cur0 = z3.Select(pre['effects'][1], cur0)
+            eff_cur1 = z3.Select(I.st.heap['effects'][1], cur0)
+            if same_thread:
+                link = z3.And(tracked, z3.Not(is_signal))
+                I.oblige('tracked_current_links_new_event', z3.Implies(link, z3.And(c1.present, c1.val.t == cur0, e1.present, e1.val.t == 1)),
+                         detail='an event fired while a tracked event is handled becomes its effect: cause = current, effects = 1')
+                I.oblige('tracked_current_counts_new_event', z3.Implies(link, eff_cur1 == eff_cur0 + 1))
+                I.oblige('untracked_current_leaves_event_untracked', z3.Implies(z3.Not(link), z3.And(
+                    c1.present == z3.Select(pre['cause'][0], event.t), e1.present == z3.Select(pre['effects'][0], event.t))))
+                I.oblige('untracked_current_not_counted', z3.Implies(z3.And(z3.Not(link), cur0 != core.null()), eff_cur1 == eff_cur0))
+                cover(I, 'linked')
+            I.oblige('preserves_Tracked', tracked_wf(I))
+    return post
+
+
+for prop, same in (('C02', True), ('C05', True), ('C03', False), ('C03', True)):
+    SPECS.append(FucSpec(
+        prop, FILE, 'Manager._fire', fire_setup(same), fire_post(prop, same), name='Manager._fire[%s]' % ('loop thread' if same else 'foreign thread'),
+        fields=F_FIELDS, field_alias=F_ALIAS, calls=FIRE_CALLS, classes=EVENT_CLASSES, cover=['return'],
+        clause={'C02': '_fire (loop thread): exactly one queue append of the fired event; no handler is run, nothing else is fired',
+                'C05': '_fire (loop thread): the new event is linked to the tracked current event (cause, effects = 1) and counted in it; '
+                       'otherwise it stays untracked',
+                'C03': '_fire (%s): the event is appended exactly once; from a foreign thread the generate_events event being handled '
+                       'gets reduce_time_left(0) after the append' % ('loop thread' if same else 'foreign thread')}[prop]))
+
+
+def fe_setup(I):
+    self = obj(I, 'self', 'Manager')
+    event = obj(I, 'event', 'Event')
+    I.st.uses_any = True
+    root = I.field(self, 'root')
+    I.assume(root.t != core.null())
+    ch = sym(I, 'ch', Any)
+    nchan = I.st.choice(2, 'channels_given')
+    I.st.ghost['GIVEN'] = nchan == 0
+    return {'self': self, 'event': event, 'channels': VTuple([ch] if nchan == 0 else []), 'kwargs': VCDict({})}
+
+
+def s_Value(I, recv, args, kw):
+    """contract of Value.__init__: a fresh future without result and without errors"""
+    v = I.st.fresh_ref('Value')
+    for f, x in (('errors', VBool(False)), ('result', VBool(False)), ('promise', VBool(False)), ('handled', VBool(False))):
+        I.st.write_field(v.t, f, x)
+    I.st.write_field(v.t, 'v_event', args[0])
+    I.st.write_field(v.t, 'manager', args[1])
+    I.st.write_field(v.t, 'v_parent', v)
+    I.st.ghost['NEWVALUE'] = v
+    return v
+
+
+def s_root_fire(I, recv, args, kw):
+    log(I, 'ROOTFIRE').append((recv, args, kw))
+    return NONE
+
+
+def fe_post(I, outcome, ctx):
+    if no_escape(I, outcome):
+        return
+    cover(I, 'return')
+    a = ctx['args']
+    self, event = a['self'], a['event']
+    rf = log(I, 'ROOTFIRE')
+    nv = I.st.ghost.get('NEWVALUE')
+    I.oblige('fresh_value_created', z3.BoolVal(nv is not None))
+    if nv is None:
+        return
+    I.oblige('event_gets_the_fresh_value', I.field(event, 'value').t == nv.t)
+    I.oblige('fresh_value_has_no_errors_no_result', z3.And(z3.Not(I.fz(nv, 'errors')), z3.Not(I.fz(nv, 'result'))))
+    I.oblige('returns_the_value', outcome[1].t == nv.t)
+    I.oblige('queued_once_on_the_root', z3.BoolVal(len(rf) == 1))
+    if len(rf) == 1:
+        r, args, kw = rf[0]
+        I.oblige('root_fire_gets_event', z3.And(r.t == I.field(self, 'root').t, args[0].t == event.t))
+        if I.st.ghost['GIVEN']:
+            I.oblige('explicit_channels_used', z3.BoolVal(isinstance(args[1], VTuple) and len(args[1].items) == 1
+                                                          and args[1].items[0] is a['channels'].items[0]))
+
+
+SPECS.append(FucSpec(
+    'C04', FILE, 'Manager.fireEvent', fe_setup, fe_post, fields=dict(F_FIELDS, e_channels=Opt(Tup(Any))), field_alias=F_ALIAS,
+    calls={'Value': s_Value, 'self.root._fire': s_root_fire}, classes=EVENT_CLASSES | {'Value'}, cover=['return'],
+    clause='fireEvent: the event gets a fresh Value (no result, no errors) which is returned, and is handed to the root queue exactly once'))
+
+
+# ============================================================================= C05: _dispatcher part
+def c05_handler_pre(I, ev):
+    self = I.local('self')
+    cover(I, 'handler_called')
+    I.oblige('handler_runs_as_current_event', I.fz(self, '_currently_handling') == ev.t,
+             detail='events fired by a handler are linked to the event being handled')
+
+
+def c05_entry(I):
+    """after the tracking block, before any handler runs"""
+    ev = I.local('event')
+    c, e = I.field(ev, 'cause'), I.field(ev, 'effects')
+    comp = I.fz(ev, 'complete')
+    I.oblige('complete_request_starts_tracking', z3.Implies(comp, z3.And(c.present, c.val.t != core.null(), e.present, e.val.t == 1)),
+             detail='an event asking for completion is its own cause (unless it already has one) and counts itself')
+    I.oblige('preserves_Tracked', tracked_wf(I))
+
+
+def c05_post(I, outcome, ctx):
+    kind, v = outcome
+    if kind == 'raise':
+        return
+    cover(I, 'return')
+    done = log(I, 'DONE')
+    ev = ctx['args']['event']
+    I.oblige('every_return_path_finishes_the_event', z3.BoolVal(len(done) == 1),
+             detail='also a cancelled event must be counted down, otherwise the events that caused it never complete')
+    for d in done[:1]:
+        I.oblige('finishes_this_event', d[0].t == ev.t)
+    I.oblige('handling_restored', I.fz(ctx['args']['self'], '_currently_handling') == I.st.ghost['HANDLING0'],
+             detail='re-entrant dispatch gives the event being handled back to the outer handlers')
+
+
+def c05_extra(I, a):
+    I.assume(tracked_wf(I), 'requires Tracked')
+    I.st.ghost['HANDLING0'] = I.fz(a['self'], '_currently_handling')
+    I.st.ghost['HANDLER_RELY'] = c05_handler_pre
+
+
+def c05_replay(model, ob):
+    if 'every_return_path' not in ob['name']:
+        return None
+    return '''
+import sys
+from circuits import Component, Event, handler
+class a(Event):
+    complete = True
+class b(Event): pass
+seen = []
+class App(Component):
+    def a(self):
+        e = b(); self.fire(e); e.cancel()
+    def a_complete(self, *args): seen.append('a_complete')
+app = App()
+app.fire(a())
+for _ in range(10): app.tick()
+print('a fired b and cancelled it before dispatch; a_complete seen:', seen)
+sys.exit(1 if not seen else 0)
+'''
+
+
+SPECS.append(disp_spec(
+    'C05', 'Manager._dispatcher[tracking]', c05_post, setup_extra=c05_extra, cover_=['return', 'handler_called'],
+    loop_hooks={'entry': c05_entry}, replay=c05_replay,
+    inv=[('tracked_wf', tracked_wf), ('current_is_event', lambda I: I.fz(I.local('self'), '_currently_handling') == I.local('event').t),
+         ('saved_handling', lambda I: I.local('handling').t == I.st.ghost['HANDLING0'])],
+    clause='_dispatcher: a completion request starts tracking (cause, effects = 1); every handler runs with _currently_handling = '
+           'event; every return path, the cancelled one included, finishes the event through _eventDone'))
